@@ -86,16 +86,11 @@ def run(ctx):
                 continue
             nalloc += 1
             size = e[2] if e[0] == "init_zero" else e[1]
-            lv = [x for x in H.leaves(size) if EM.header_leaf(x)]
-            for x in lv:
-                # a dominating order comparison that bounds the field (against the input length or a constant)
-                bounded = False
-                for c in o.path.conds:
-                    t = c[0]
-                    if t[0] == "bin" and t[1] in ("Lt", "Le", "Gt", "Ge") and H.mentions(t, x):
-                        bounded = True
-                if not bounded:
-                    abad.setdefault("zero-filled area sized by %s without a bound" % A.show(U.strip(x)), e)
+            # every file-controlled quantity the size grows with needs a dominating comparison that bounds it from above
+            # (against a constant, the input length, or another bounded quantity)
+            x = unbounded(size, o.path)
+            if x is not None:
+                abad.setdefault("allocation sized by %s, which no comparison on the path bounds from above" % A.show(U.strip(x))[:60], e)
     if abad:
         for desc, e in sorted(abad.items()):
             ck.violation("C16.alloc", "api=from_binary", desc, where=where,
@@ -120,6 +115,89 @@ def run(ctx):
     ck.assumptions.append("the elf crate's parsers return ParseError rather than panic")
     ck.sample({"rule": "C16", "paths": len(outs), "by_design_rejections": len(dsites), "arith_sites": len(nsites),
                "alloc_sites": nalloc})
+
+
+ALLOC_CAP = 1 << 40
+
+
+def tainted(t, depth=0):
+    """does the term depend on anything read from the file (looking through min/max/saturating results)"""
+    if not isinstance(t, tuple) or depth > 40:
+        return False
+    if EM.header_leaf(t):
+        return True
+    if t and t[0] in ("int", "str", "k"):
+        return False
+    return any(tainted(x, depth + 1) for x in t if isinstance(x, tuple))
+
+
+def strip_wide(t):
+    while t[0] in ("w", "cast") and isinstance(t[1], tuple):
+        t = t[1]
+    return t
+
+
+def upper_bounds(path, t):
+    """the terms U with  t <= U  (or t < U, t == U) recorded as a branch condition on the path; t may also sit inside a
+    sum on the smaller side (x + c <= U bounds x; wrap-around of that sum is C16.arith's obligation)"""
+    t = strip_wide(t)
+    out = []
+    for c in path.conds:
+        ct = c[0]
+        if len(c) < 3 or c[1] != "==" or c[2] not in (0, 1) or not isinstance(ct, tuple) or ct[0] != "bin":
+            continue
+        op = ct[1]
+        if op not in ("Lt", "Le", "Gt", "Ge", "Eq"):
+            continue
+        if c[2] == 0:
+            op = {"Lt": "Ge", "Le": "Gt", "Gt": "Le", "Ge": "Lt", "Eq": None}[op]
+            if op is None:
+                continue
+        pairs = [(ct[2], ct[3])] if op in ("Lt", "Le") else [(ct[3], ct[2])] if op in ("Gt", "Ge") else [(ct[2], ct[3]), (ct[3], ct[2])]
+        for small, big in pairs:
+            if addend_of(t, strip_wide(small)) and not H.mentions(big, t):
+                out.append(big)
+    return out
+
+
+def addend_of(x, t, depth=0):
+    if t == x:
+        return True
+    if depth < 8 and t[0] == "bin" and t[1] == "Add":
+        return addend_of(x, strip_wide(t[2]), depth + 1) or addend_of(x, strip_wide(t[3]), depth + 1)
+    return False
+
+
+def unbounded(t, path, depth=0):
+    """None if the value of t is bounded from above on this path, else the file-controlled sub-term that is not"""
+    if depth > 12:
+        return t
+    if t[0] == "cast" and isinstance(t[-1], int) and t[-1] <= 32:
+        return None
+    t = strip_wide(t)
+    if t[0] == "int":
+        # a constant counts as a bound only when it is an allocation one may attempt (the overflow guards of checked
+        # additions also compare against constants, near 2^64)
+        return None if t[1] < ALLOC_CAP else t
+    if not tainted(t):
+        return None
+    if any(unbounded(u, path, depth + 1) is None for u in upper_bounds(path, t)):
+        return None
+    if t[0] == "bin":
+        op, a, b = t[1], t[2], t[3]
+        ua = unbounded(a, path, depth + 1)
+        if op in ("Sub", "Shr", "Div"):
+            return ua
+        ub = unbounded(b, path, depth + 1)
+        if op in ("BitAnd", "Rem"):
+            return None if ua is None or ub is None else ua
+        return ua if ua is not None else ub
+    if t[0] == "ret" and isinstance(t[2], tuple):
+        us = [unbounded(a, path, depth + 1) for a in t[2] if isinstance(a, tuple)]
+        if t[1] == "min":
+            return None if any(u is None for u in us) else us[0]
+        return next((u for u in us if u is not None), None)
+    return t
 
 
 def callee_before(body, site):
